@@ -525,18 +525,44 @@ def cut_condition(rng, o, callees, vars_):
     if r < 0.92: return ['and', c, ['and', ['cut'], ['and', f, ['cut']]]]        # c, !, f, !
     return ['and', ['and', c, ['cut']], f]                                       # (c, !), f              (left-nested)
 
+def filter_condition(rng, o, callees, vars_):
+    """a condition of the form  Gen, Nested [, Rest]:  a goal with several answers, then a \\+ / if-then-else that tests the answer, so
+    that the nested construct commits (or not) differently for successive answers of Gen while the enclosing condition is still undecided"""
+    leaves = [c for c in callees if c[0].startswith('q')] or [('q0', 1)]
+    name, ar = rng.choice(leaves)
+    x = rng.choice(vars_)
+    gen = ['call', name, [V(x)] * ar]
+    sol = lambda: A('%s_%d' % (name, rng.randrange(0, 3)))
+    test = lambda: ['call', rng.choice(['=', '=', '\\=']), [V(x), sol()]]
+    r = rng.random()
+    if r < 0.25: nested = ['not', test()]
+    elif r < 0.35: nested = ['not', ['not', test()]]
+    elif r < 0.55: nested = ['or', ['if', test(), rng.choice([['fail'], ['true'], test()])], rng.choice([['true'], ['fail'], test()])]
+    elif r < 0.65: nested = ['if', test(), rng.choice([['true'], test()])]
+    elif r < 0.80: nested = ['not', ['and', test(), rng.choice([['true'], ['cut'] if o.opaque_cut else ['true'], ['fail']])]]
+    else: nested = ['or', ['if', ['not', test()], ['true']], test()]
+    q = rng.random()
+    if q < 0.6: return ['and', gen, nested]
+    if q < 0.8: return ['and', gen, ['and', nested, test()]]
+    if q < 0.9: return ['and', ['and', gen, nested], rng.choice([['true'], test()])]
+    y = rng.choice(vars_)
+    return ['and', gen, ['and', ['call', name, [V(y)] * ar], ['and', nested, ['call', '\\=', [V(x), V(y)]]]]]
+
+def any_condition(rng, o, callees, vars_):
+    return cut_condition(rng, o, callees, vars_) if (o.opaque_cut and rng.random() < 0.6) else filter_condition(rng, o, callees, vars_)
+
 def continuation_goal(rng, o, callees, vars_, depth=0):
     """K: the goal after a disjunction / if-then-else"""
     r = rng.random()
     t = lambda: _tag(rng, vars_, rng.choice(['kt', 'ke', 'k']))
     if r < 0.22:
-        return ['not', cut_condition(rng, o, callees, vars_)]
+        return ['not', any_condition(rng, o, callees, vars_)]
     if r < 0.44:
-        return ['or', ['if', cut_condition(rng, o, callees, vars_), t()], t()]
+        return ['or', ['if', any_condition(rng, o, callees, vars_), t()], t()]
     if r < 0.52:
-        return ['if', cut_condition(rng, o, callees, vars_), t()]
+        return ['if', any_condition(rng, o, callees, vars_), t()]
     if r < 0.58:
-        return ['not', ['not', cut_condition(rng, o, callees, vars_)]]
+        return ['not', ['not', any_condition(rng, o, callees, vars_)]]
     if r < 0.64:
         return ['cut'] if o.cut else ['true']
     if r < 0.72:
@@ -560,20 +586,34 @@ def duplicating_goal(rng, o, callees, vars_, depth=0):
         return ['or', alt('d1'), alt('d2')]
     if r < 0.40:
         return ['or', alt('d1'), ['or', alt('d2'), alt('d3')]] if rng.random() < 0.5 else ['or', ['or', alt('d1'), alt('d2')], alt('d3')]
-    if r < 0.70:
+    if r < 0.60:
         cond = _succ_goal(rng, o, callees, vars_) if rng.random() < 0.5 else _fail_goal(rng, o, callees, vars_)
         return ['or', ['if', cond, alt('dt')], alt('de')]
-    if r < 0.78:
+    if r < 0.66:
         return ['if', _succ_goal(rng, o, callees, vars_), alt('dt')]
+    if r < 0.76:
+        # else-if chain  ( C1 -> T1 ; C2 -> T2 ; E ): an if-then-else in a non-first position of the ; chain, whose condition decides
+        c1 = _fail_goal(rng, o, callees, vars_) if rng.random() < 0.6 else _succ_goal(rng, o, callees, vars_)
+        c2 = _succ_goal(rng, o, callees, vars_) if rng.random() < 0.7 else _fail_goal(rng, o, callees, vars_)
+        first = ['if', c1, alt('dt1')] if rng.random() < 0.7 else alt('d1')
+        if rng.random() < 0.3:
+            # explicitly parenthesised on the left:  ( ( C -> T ; E ) ; F )  is not  ( C -> T ; ( E ; F ) )
+            return ['or', ['or', ['if', c2, alt('dt2')], alt('de')], alt('d3')]
+        return ['or', first, ['or', ['if', c2, alt('dt2')], alt('de')]]
     if r < 0.86 and depth < 2:
         # an if-then-else in a non-first position of a ; chain, or nested in an alternative
         return ['or', alt('d1'), duplicating_goal(rng, o, callees, vars_, depth + 1)]
     if r < 0.93:
-        cc = cut_condition(rng, o, callees, vars_)
+        cc = any_condition(rng, o, callees, vars_)
         return ['or', ['if', cc, alt('dt')], alt('de')]
     return ['or', ['if', ['or', _fail_goal(rng, o, callees, vars_), _succ_goal(rng, o, callees, vars_)], alt('dt')], alt('de')]
 
 def contdup_body(rng, o, callees, vars_):
+    if rng.random() < 0.15:
+        # no continuation at all: a construct whose condition is  Gen, Nested
+        c = filter_condition(rng, o, callees, vars_)
+        w = rng.random()
+        return (['not', c] if w < 0.3 else ['if', c, _tag(rng, vars_, 'kt')] if w < 0.4 else ['or', ['if', c, _tag(rng, vars_, 'kt')], _tag(rng, vars_, 'ke')])
     d = duplicating_goal(rng, o, callees, vars_)
     k = continuation_goal(rng, o, callees, vars_)
     r = rng.random()
